@@ -171,7 +171,13 @@ type c17ConnDef struct {
 	local string // name of the local address
 	rip   string // remote IP
 	rport int
+	// relayed: the connection is a circuit through a relay at rip:rport (remote multiaddr <relay>/p2p/<relay id>/p2p-circuit);
+	// its local address is that of the connection to the relay, which may well be a listen address (port reuse), but the
+	// connection does not ARRIVE at a listen address and the relay's IP is not the IP of the peer that reports
+	relayed bool
 }
+
+const c17RelayID = "12D3KooWNTYmL3W4uJR7mFcXubT4FDYULyZn73PZaJFVMvtPdFa8"
 
 // c17Group is the observer group of a remote IP per the statement: the IPv4 address itself, or the IPv6 /56.
 // Computed with net/netip (the manager uses net.IP.Mask) so the two are independent.
@@ -220,23 +226,23 @@ func c17Scenarios(thorough bool) []c17Scenario {
 				// listen address, four externals (truncation to three, ordering)
 				name: "v4-tcp", listen: []string{"tcp4", "tcp4any", "quic4", "wt4"}, k: 4,
 				conns: []c17ConnDef{
-					{"a", "tcp4", "1.1.1.1", 1000}, {"b", "tcp4", "1.1.1.1", 2000}, {"c", "tcp4", "2.2.2.2", 1000},
-					{"d", "eph4", "3.3.3.3", 1000}, {"e", "tcp4", "4.4.4.4", 1000},
+					{"a", "tcp4", "1.1.1.1", 1000, false}, {"b", "tcp4", "1.1.1.1", 2000, false}, {"c", "tcp4", "2.2.2.2", 1000, false},
+					{"d", "eph4", "3.3.3.3", 1000, false}, {"e", "tcp4", "4.4.4.4", 1000, false},
 				},
 			},
 			{
 				// IPv6 /56 grouping; NAT64 is ineligible for that reason alone; one connection on the QUIC waist
 				name: "v6-tcp", listen: []string{"tcp6", "quic6", "wt6"}, k: 3,
 				conns: []c17ConnDef{
-					{"a", "tcp6", c17A1, 1000}, {"b", "tcp6", c17A2, 1000}, {"c", "tcp6", c17B, 1000}, {"q", "quic6", c17A3, 1000},
+					{"a", "tcp6", c17A1, 1000, false}, {"b", "tcp6", c17A2, 1000, false}, {"c", "tcp6", c17B, 1000, false}, {"q", "quic6", c17A3, 1000, false},
 				},
 			},
 			{
 				// QUIC and WebTransport share one local thin waist; TCP on the same port number does not
 				name: "v4-udp-shared-waist", listen: []string{"tcp4", "quic4", "wt4"}, k: 3,
 				conns: []c17ConnDef{
-					{"q1", "quic4", "1.1.1.1", 1000}, {"w1", "wt4", "1.1.1.1", 2000}, {"w2", "wt4", "2.2.2.2", 1000},
-					{"q3", "ephq4", "3.3.3.3", 1000}, {"t2", "tcp4", "2.2.2.2", 1000},
+					{"q1", "quic4", "1.1.1.1", 1000, false}, {"w1", "wt4", "1.1.1.1", 2000, false}, {"w2", "wt4", "2.2.2.2", 1000, false},
+					{"q3", "ephq4", "3.3.3.3", 1000, false}, {"t2", "tcp4", "2.2.2.2", 1000, false},
 				},
 			},
 			{
@@ -246,15 +252,24 @@ func c17Scenarios(thorough bool) []c17Scenario {
 				// Searched with ActivationThresh 1 only: Addrs(2..4) rank the same states for the higher thresholds.
 				name: "v4-tcp-ranking", listen: []string{"tcp4"}, k: 4, classes: []string{c17ObsNil}, threshs: []int{1},
 				conns: []c17ConnDef{
-					{"a", "tcp4", "1.1.1.1", 1000}, {"b", "tcp4", "2.2.2.2", 1000}, {"c", "tcp4", "3.3.3.3", 1000},
-					{"d", "tcp4", "4.4.4.4", 1000}, {"e", "tcp4", "5.5.5.5", 1000},
+					{"a", "tcp4", "1.1.1.1", 1000, false}, {"b", "tcp4", "2.2.2.2", 1000, false}, {"c", "tcp4", "3.3.3.3", 1000, false},
+					{"d", "tcp4", "4.4.4.4", 1000, false}, {"e", "tcp4", "5.5.5.5", 1000, false},
 				},
 			},
 			{
 				// two listeners of the same transport: reports count per local listen address
 				name: "v4-two-tcp-ports", listen: []string{"tcp4", "tcp4b"}, k: 2,
 				conns: []c17ConnDef{
-					{"a", "tcp4", "1.1.1.1", 1000}, {"b", "tcp4b", "2.2.2.2", 1000}, {"c", "tcp4", "3.3.3.3", 1000}, {"d", "tcp4b", "3.3.3.3", 2000},
+					{"a", "tcp4", "1.1.1.1", 1000, false}, {"b", "tcp4b", "2.2.2.2", 1000, false}, {"c", "tcp4", "3.3.3.3", 1000, false}, {"d", "tcp4b", "3.3.3.3", 2000, false},
+				},
+			},
+			{
+				// connections that reach us THROUGH relays (their local address is the listen address the relay connection
+				// happens to use): whatever is reported on them never counts
+				name: "v4-relayed-conns", listen: []string{"tcp4"}, k: 2, classes: []string{c17ObsNil}, threshs: []int{1, 2},
+				conns: []c17ConnDef{
+					{name: "a", local: "tcp4", rip: "1.1.1.1", rport: 1000},
+					{name: "r1", local: "tcp4", rip: "9.9.9.1", rport: 4001, relayed: true}, {name: "r2", local: "tcp4", rip: "9.9.9.2", rport: 4001, relayed: true},
 				},
 			},
 		}
@@ -264,39 +279,48 @@ func c17Scenarios(thorough bool) []c17Scenario {
 			// four observer groups on one waist (threshold 4 reachable), two non-listen locals, truncation + ordering
 			name: "v4-tcp", listen: []string{"tcp4", "tcp4any", "quic4", "wt4"}, k: 4,
 			conns: []c17ConnDef{
-				{"a", "tcp4", "1.1.1.1", 1000}, {"b", "tcp4", "1.1.1.1", 2000}, {"c", "tcp4", "2.2.2.2", 1000},
-				{"d", "eph4", "3.3.3.3", 1000}, {"e", "tcp4", "4.4.4.4", 1000}, {"f", "tcp4", "3.3.3.3", 2000},
-				{"g", "otherip4", "5.5.5.5", 1000},
+				{"a", "tcp4", "1.1.1.1", 1000, false}, {"b", "tcp4", "1.1.1.1", 2000, false}, {"c", "tcp4", "2.2.2.2", 1000, false},
+				{"d", "eph4", "3.3.3.3", 1000, false}, {"e", "tcp4", "4.4.4.4", 1000, false}, {"f", "tcp4", "3.3.3.3", 2000, false},
+				{"g", "otherip4", "5.5.5.5", 1000, false},
 			},
 		},
 		{
 			name: "v6-tcp", listen: []string{"tcp6", "quic6", "wt6"}, k: 3,
 			conns: []c17ConnDef{
-				{"a", "tcp6", c17A1, 1000}, {"b", "tcp6", c17A2, 1000}, {"c", "tcp6", c17B, 1000}, {"d", "tcp6", c17C, 1000},
-				{"e", "tcp6", c17D, 1000}, {"q", "quic6", c17A3, 1000}, {"x", "eph6", c17C, 2000},
+				{"a", "tcp6", c17A1, 1000, false}, {"b", "tcp6", c17A2, 1000, false}, {"c", "tcp6", c17B, 1000, false}, {"d", "tcp6", c17C, 1000, false},
+				{"e", "tcp6", c17D, 1000, false}, {"q", "quic6", c17A3, 1000, false}, {"x", "eph6", c17C, 2000, false},
 			},
 		},
 		{
 			name: "v4-udp-shared-waist", listen: []string{"tcp4", "quic4", "wt4"}, k: 3,
 			conns: []c17ConnDef{
-				{"q1", "quic4", "1.1.1.1", 1000}, {"w1", "wt4", "1.1.1.1", 2000}, {"w2", "wt4", "2.2.2.2", 1000},
-				{"q3", "ephq4", "3.3.3.3", 1000}, {"t2", "tcp4", "2.2.2.2", 1000}, {"q4", "quic4", "4.4.4.4", 1000},
-				{"w5", "ephwt4", "5.5.5.5", 1000},
+				{"q1", "quic4", "1.1.1.1", 1000, false}, {"w1", "wt4", "1.1.1.1", 2000, false}, {"w2", "wt4", "2.2.2.2", 1000, false},
+				{"q3", "ephq4", "3.3.3.3", 1000, false}, {"t2", "tcp4", "2.2.2.2", 1000, false}, {"q4", "quic4", "4.4.4.4", 1000, false},
+				{"w5", "ephwt4", "5.5.5.5", 1000, false},
 			},
 		},
 		{
 			name: "v4-two-tcp-ports", listen: []string{"tcp4", "tcp4b"}, k: 3,
 			conns: []c17ConnDef{
-				{"a", "tcp4", "1.1.1.1", 1000}, {"b", "tcp4b", "2.2.2.2", 1000}, {"c", "tcp4", "3.3.3.3", 1000},
-				{"d", "tcp4b", "3.3.3.3", 2000}, {"e", "tcp4b", "1.1.1.1", 2000}, {"f", "tcp4", "2.2.2.2", 2000},
+				{"a", "tcp4", "1.1.1.1", 1000, false}, {"b", "tcp4b", "2.2.2.2", 1000, false}, {"c", "tcp4", "3.3.3.3", 1000, false},
+				{"d", "tcp4b", "3.3.3.3", 2000, false}, {"e", "tcp4b", "1.1.1.1", 2000, false}, {"f", "tcp4", "2.2.2.2", 2000, false},
+			},
+		},
+		{
+			// connections that reach us through relays (see the quick tier), here next to two direct observers
+			name: "v4-relayed-conns", listen: []string{"tcp4"}, k: 2, classes: []string{c17ObsNil}, threshs: []int{1, 2, 3},
+			conns: []c17ConnDef{
+				{name: "a", local: "tcp4", rip: "1.1.1.1", rport: 1000}, {name: "b", local: "tcp4", rip: "2.2.2.2", rport: 1000},
+				{name: "r1", local: "tcp4", rip: "9.9.9.1", rport: 4001, relayed: true}, {name: "r2", local: "tcp4", rip: "9.9.9.2", rport: 4001, relayed: true},
+				{name: "r3", local: "tcp4", rip: "1.1.1.1", rport: 4001, relayed: true},
 			},
 		},
 		{
 			// dual stack: IPv4 and IPv6 listeners side by side, IPv4 and IPv6 observers
 			name: "dual-stack-tcp", listen: []string{"tcp4", "tcp6"}, k: 2,
 			conns: []c17ConnDef{
-				{"a", "tcp4", "1.1.1.1", 1000}, {"b", "tcp4", "1.1.1.1", 2000}, {"c", "tcp4", "2.2.2.2", 1000},
-				{"u", "tcp6", c17A1, 1000}, {"v", "tcp6", c17A2, 1000}, {"w", "tcp6", c17B, 1000},
+				{"a", "tcp4", "1.1.1.1", 1000, false}, {"b", "tcp4", "1.1.1.1", 2000, false}, {"c", "tcp4", "2.2.2.2", 1000, false},
+				{"u", "tcp6", c17A1, 1000, false}, {"v", "tcp6", c17A2, 1000, false}, {"w", "tcp6", c17B, 1000, false},
 			},
 		},
 	}
